@@ -55,6 +55,8 @@ partial def mkCfg (kind : String) (kv : KV) : Option (Cfg V) :=
   | "slopes" => (kv.vals "out").map .slopes
   | "peaks" => (kv.vals "out").map .peaks
   | "peaks_slopes" => (kv.vals "out").map .peaksSlopes
+  | "analyze" => do pure (.analyze (← kv.vals "low") (← kv.vals "high"))
+  | "synthesize" => do pure (.synthesize (← kv.vals "low") (← kv.vals "high"))
   | "cache" => do
     let inner ← kv.get "inner"
     pure (.cache (← mkCfg inner kv))
@@ -81,6 +83,9 @@ structure Inst where
   /-- has produced an output of its own since it was constructed / copied (a copy inherits `last`, which `cached()`
   needs, but two instances are only compared on outputs of their own) -/
   own : Bool := true
+  /-- a hand-built composite state the model cannot represent (inner filters carrying a width of their own): the model
+  is not compared; only differentials inside the implementation apply -/
+  nomodel : Bool := false
   /-- long-run mode (`long id cap`): only the most recent `cap` inputs are kept as history; the history-based clauses
   are then asserted for the windowed kinds only (whose specification reads the last `N ≤ cap/2` inputs) -/
   long : Option Nat := none
@@ -358,6 +363,14 @@ def specAcc (i : Inst) (which : String) (impl : String) : List Clause :=
   match i.st, which with
   | .median s, w =>
     let win := Spec.window s.buffer.length (heads i.hist)
+    -- zeros of either sign in the window (no NaN): which of two equal values is "the" minimum is not determined, but
+    -- what an accessor reports is a member of the CURRENT window, as the value it is
+    let onlyZeros := win.all (fun v => match v with | .q _ => true | .nz => true | _ => false)
+    if hasNan win && onlyZeros && !win.isEmpty then
+      (match V.parse impl with
+       | some v => [clauseP s!"C17.{w}-member" (win.any (V.sameB v)) "a member of the current window"]
+       | none => [clauseP s!"C17.{w}-member" false "a member of the current window"])
+    else
     if hasNan win then [] else
     let e := match w with
       | "min" => some (Spec.minimum win)
@@ -542,14 +555,19 @@ def stepFilterOp (d : DState) (op : String) (toks impl : List String) : Option (
             && ms.weight.render == (V.ofNat N).render
         then (ms.taps.map (fun v => [v]), false) else (hist, nospec)
       | _ => (hist, nospec)
+    let nomodel := kind == "emeanvar" &&
+      ((kv.get "mw").isSome && kv.get "mw" != kv.get "w" || (kv.get "vw").isSome && kv.get "vw" != kv.get "w")
     let d := (d.put id { st := st, hist := hist, base := (kv.nat "count").getD 0, tracked := kv.get "T" == some "tracked",
-                         nospec := nospec }).flag "inject"
+                         nospec := nospec, nomodel := nomodel }).flag "inject"
     some (report d op { model := "ok", impl := implS })
   | "f" :: id :: args => do
     let id ← id.toNat?
     let inst ← d.get id
     -- on the state an abandoned call left behind nothing is predicted (a further panic of safe code included)
     if inst.poisoned then some (report d op { model := implS, impl := implS, kind := kindName inst.st }) else
+    if inst.nomodel then
+      let d := d.put id { inst with hist := inst.hist ++ [(args.mapM V.parse).getD []], last := some ((parseOut impl).getD none), own := true }
+      some (report d op { model := implS, impl := implS, kind := kindName inst.st }) else
     let xs ← args.mapM V.parse
     let implOut ← parseOut impl
     let res := match inst.st with
